@@ -3,8 +3,8 @@ Models: Model/Trxd.v (toolkit codec, shared with C01) and Model/TrxIf.v (trxcon'
 Tie: Gen/TrxdConst.v (reflection) + Gen/TrxIfConst.v (constants as compiled into a harness that #includes the real trx_if.c)
 + correspondence: the datagrams the real Python codec produces go through the real trx_data_rx_cb and the extracted c_data_rx,
 burst requests go through the real trx_if_handle_phyif_burst_req, the extracted c_burst_req and the real TxMsg.parse_msg,
-and the TRXC command printers / response parser of trx_if.c are compared with their models (the defects of the response
-parser are C14's business: they are part of the comparison here - model NullDeref <-> SEGV - but not reported by this check)."""
+and the TRXC command printers / response parser of trx_if.c are compared with their models (a SEGV / sanitizer stop of the response
+parser shows up here as a correspondence mismatch; naming the defect is the business of trxif_util.ctrl_malformed_campaign, used by C14)."""
 from .. import common
 from .. import trxd_util as U
 from .. import trxif_util as T
@@ -263,7 +263,7 @@ def run(ctx):
     bres = ctx.model("TrxIf", [T.m_rsp_line(c, "w_trxif_rsp_branch") for c in cases])
     for c, b in zip(cases, bres):
         ctx.nontrivial(("rsp", tuple(b[:1]), b[1] != 0 if len(b) > 1 and b[0] in (4, 5) else None, c[0] is None, c[1]))
-        ctx.count("ctrl_rsp_branch:%s" % {0: "read-none", 1: "ignored", 2: "no-pending", 3: "mismatch", 4: "rejected", 5: "accepted", 6: "null-deref", 7: "uninit"}.get(b[0], b[0]))
+        ctx.count("ctrl_rsp_branch:%s" % {0: "read-none", 1: "ignored", 2: "no-pending", 3: "mismatch", 4: "rejected", 5: "accepted", 6: "null-deref", 7: "uninit", 8: "no-status"}.get(b[0], b[0]))
     # ================================================================ bookkeeping
     for k in range(0, len(rxd), max(1, len(rxd) // 3)):
         ctx.sample(dict(direction="python->c", octets_head=rxd[k][0][:12], n=len(rxd[k][0]), observed={f: v for f, v in robs[k].items() if f != "burst"}))
